@@ -8,7 +8,8 @@ ASSUMPTIONS = [
     "bounded model checking (Kani 0.68/CBMC 6.11), unwinding assertions on",
     "K17.1: the statements of the rayon closure of ffi_par.rs between `if let Some(constraint) = &mut cc.constraint {` and its closing brace are cut out of /repo's current source on every run and included into a mock environment (same names; REAL SimpleVob / StepResult types); the rayon scheduling, catch_unwind and set_error are not executed",
     "vocabulary size V and the result kind are concrete per instance (V in {5,31,32,33,63,64}, destination 0..4 words: smaller than, equal to and larger than the mask); mask contents and eos id symbolic. Reason: Kani mis-models ptr::write_bytes with a symbolic count (3-line probe fails) and a symbolic allocation length exhausts CBMC",
-    "outside the claim: equality of C results and Rust results (engine level), pointer lifetimes, llg_compute_mask's returned pointer",
+    "K17.4 (E1c whole-function slices): llg_matcher_{compute_mask_into, compute_mask, get_mask, get_mask_byte_size, consume_token, consume_tokens, rollback, reset, is_accepting, is_stopped, validate_tokens, compute_ff_tokens}, slice_from_ptr_or_empty and LlgMatcher::{wrap, clear_mask, mask_elts} cut verbatim from /repo's current ffi.rs onto a local copy of LlgMatcher whose Matcher is a stub (call log + symbolic answers); caller buffers are allocated with exactly the declared length. Decided: the engine receives exactly the caller's tokens (null pointer with n = 0 included) and the caller receives exactly the engine's verdict (status code, validation count clipped to i32, the first min(available, output_len) fast-forward tokens and nothing beyond, the mask words when the declared length is the advertised one and a refusal without a write otherwise); the saved mask is dropped by every state change. Fast-forward counts and vocabulary sizes concrete per instance (memcpy with a symbolic count is mis-modelled by Kani 0.68)",
+    "outside the claim: equality of the RUST results with the engine's state (that is C01/C12/C18), the LlgConstraint entry points other than the parallel mask copy, pointer lifetimes, llg_compute_mask's returned pointer",
 ]
 
 
@@ -19,9 +20,14 @@ def run():
     if tier() == "quick":
         keep = ("v31_d1", "v31_d2", "v32_d1", "v33_d3", "v64_d2", "v64_d4", "v31_d0_k1", "k17_2", "k17_3", "witness")
         specs = [s for s in specs if any(k in s["name"] for k in keep)]
-    info = run_parser_groups("C17", "c17", ["ffi"], specs, out, harness_timeout_s=600)
+    fspecs = pp.specs("ffim", "c17", "c17_fail")
+    if tier() == "quick":
+        fspecs = [s for s in fspecs if not any(k in s["name"] for k in ("tokens_n0", "ff_out1_n0", "ff_out2_n2", "mask_v32", "mask_v31"))]
+    specs += fspecs
+    info = run_parser_groups("C17", "c17", ["ffi", "ffim"], specs, out, harness_timeout_s=600, mem_gb=40)
     cov = e1_coverage(out, [dict(harness=s["name"]) for s in specs[:8]],
                       ["parser/src/ffi_par.rs mask copy statements (source slice)", "parser/src/ffi.rs llg_matcher_compute_mask_into slice bounds, llg_commit_token range test (source slice)",
-                       "toktrie::SimpleVob::{alloc_with_capacity, allow_token, as_slice, as_ptr, len}", "toktrie::StepResult::{sample, stop, is_stop}"],
+                       "toktrie::SimpleVob::{alloc_with_capacity, allow_token, as_slice, as_ptr, len}", "toktrie::StepResult::{sample, stop, is_stop}",
+                       "parser/src/ffi.rs llg_matcher_* entry points + LlgMatcher::{wrap, clear_mask, mask_elts} (whole-function slices)"],
                       dict(vocab_sizes=[5, 31, 32, 33, 63, 64], dest_words="0..4", kinds=["sample", "stop", "error"]), dict(tier=tier(), stubs=[], **info))
     return finish("C17", out, tm, "model_checking", cov, ASSUMPTIONS)
